@@ -84,6 +84,17 @@ def unfoldings(fmls, rounds=2, opaque=()):
     return out
 
 
+def _register_io_specs():
+    from z3 import StringSort
+    if 'CONTENT' not in SPEC:
+        SPEC['CONTENT'] = dict(f=Function('CONTENT', StringSort(), StringSort()), args=[STR], ret=STR, unfold=None)
+    if 'EVAL' not in SPEC:
+        SPEC['EVAL'] = dict(f=Function('EVAL', StringSort(), sort(PYVAL)), args=[STR], ret=PYVAL, unfold=None)
+
+
+_register_io_specs()
+
+
 # ------------------------------------------------------------------ symbolic state
 class St:
     def __init__(s):
@@ -250,6 +261,15 @@ class VCGen:
             return empty(want), want
         if want.k == 'dict' and v is None:
             return default(want), want
+        if want.k == 'odict' and v is None:
+            return default(want), want
+        if want.k == 'rec' and t.k == 'reclit':
+            flds = Ty.RECS[want.a[0]]
+            if set(v) != {k for k, _ in flds}:
+                raise Unsupported(f'dict literal keys {sorted(v)} differ from the record {want.a[0]}')
+            return Ty.S(want).mk(*[s.coerce(v[k][0], v[k][1], ft, st)[0] for k, ft in flds]), want
+        if want == VAL and t != VAL:
+            return s.to_val(v, t), VAL
         if t.k == 'list' and t.a[0].k == 'lref' and want.k == 'list' and want.a[0] == LIST(t.a[0].a[0]) and st is not None:
             # a list of list references where a list of list values is expected (the callee only reads): element-wise content
             e0 = t.a[0].a[0]
@@ -278,6 +298,14 @@ class VCGen:
         if t == REAL:
             return fpRealToFP(RNE(), v, Float64())
         raise Unsupported(f'cannot convert {t} to float64')
+
+    def to_val(s, v, t):
+        if t == NONE:
+            return Const('VAL_None', sort(VAL))
+        nm = 'val_of_' + sha(repr(t))
+        if nm not in SPEC:
+            SPEC[nm] = dict(f=Function(nm, sort(t), sort(VAL)), args=[t], ret=VAL, unfold=None)
+        return SPEC[nm]['f'](v)
 
     def num2(s, a, ta, b, tb):
         if ta == tb:
@@ -383,7 +411,7 @@ class VCGen:
             elif n_ == 'bool':
                 alts.append(P.is_pB(v))
             elif n_ == 'dict':
-                alts.append(BoolVal(False))
+                alts.append(P.is_pD(v))
             else:
                 raise Unsupported(f'isinstance with {n_}')
         return Or(*alts)
@@ -440,6 +468,8 @@ class VCGen:
             st.env[nm] = (fresh(nm, dt), dt)
             return st.env[nm]
         if s.specmode:
+            if nm == 'NONEVAL':
+                return Const('VAL_None', sort(VAL)), VAL
             dt0 = s.declared(nm)
             if dt0 is not None and '__b_' + nm in st.env:
                 # a local that is not bound yet: contracts may mention it under a bound(...) guard; its value is arbitrary
@@ -485,11 +515,37 @@ class VCGen:
             return i.as_long()
         return None
 
+    def split_part(s, e, st):
+        """x.split(c)[-1] and x.split(c)[0] with a constant separator: the part after the last / before the first occurrence"""
+        from z3 import IndexOf, SubString, LastIndexOf, Contains
+        call = e.value
+        x, tx = s.ev(call.func.value, st)
+        c, tc = s.ev(call.args[0], st)
+        k = s.const_index(s.ev(e.slice, st)[0])
+        if tx != STR or tc != STR or k not in (0, -1):
+            raise Unsupported('split form')
+        if k == 0:
+            return If(Contains(x, c), SubString(x, 0, IndexOf(x, c, 0)), x), STR
+        li = LastIndexOf(x, c)
+        return If(li < 0, x, SubString(x, li + Length(c), Length(x) - li - Length(c))), STR
+
     def ev_Subscript(s, e, st):
+        if isinstance(e.value, ast.Call) and isinstance(e.value.func, ast.Attribute) and e.value.func.attr == 'split' and len(e.value.args) == 1:
+            return s.split_part(e, st)
         b, t = s.ev(e.value, st)
         if isinstance(e.slice, ast.Slice):
             raise Unsupported('slice')
         i, ti = s.ev(e.slice, st)
+        if t.k == 'rec':
+            key = e.slice.value if isinstance(e.slice, ast.Constant) else None
+            flds = dict(Ty.RECS[t.a[0]])
+            if key not in flds:
+                raise Unsupported(f'record key {key!r}')
+            return getattr(Ty.S(t), 'k_' + key)(b), flds[key]
+        if t.k == 'odict':
+            if not s.specmode:
+                s.safe(st, 'key', Ty.S(t).has(b)[i], e.lineno)
+            return Ty.S(t).val(b)[i], t.a[0]
         if t == PYVAL:
             P = s.pv()
             k = s.const_index(i)
@@ -815,7 +871,9 @@ class VCGen:
 
     def ev_Dict(s, e, st):
         if e.keys:
-            raise Unsupported('non-empty dict literal')
+            if not all(isinstance(k, ast.Constant) and isinstance(k.value, str) for k in e.keys):
+                raise Unsupported('dict literal with non-constant keys')
+            return {k.value: s.ev(v, st) for k, v in zip(e.keys, e.values)}, T('reclit')
         return None, DICT(NONE, NONE)      # type fixed by the declared local it is assigned to
 
     def ev_JoinedStr(s, e, st):
@@ -857,8 +915,8 @@ class VCGen:
             hi, _ = s.ev(e.args[2], st)
             vt = INT
             body_e = e.args[3]
-        else:               # forall(r, body): r ranges over all integers (object / list references)
-            vt = INT
+        else:               # forall(r, body): r ranges over all integers (object / list references); forall(k, 'str', body): over strings
+            vt = {'str': STR, 'int': INT, 'real': REAL}[e.args[1].value] if len(e.args) == 3 and isinstance(e.args[1], ast.Constant) else INT
             lo = hi = None
             body_e = e.args[-1]
         # skolemise only at the top level: under a retained binder the witness would depend on the bound variable
@@ -976,6 +1034,18 @@ class VCGen:
                 if nm == 'truthy':
                     a, ta = s.ev(e.args[0], st)
                     return s.truthy(a, ta, st), BOOL
+                if nm == 'toval':
+                    a_, ta_ = s.ev(e.args[0], st)
+                    return s.to_val(a_, ta_), VAL
+                if nm in ('okeys', 'ohas', 'oval'):
+                    d_, td_ = s.ev(e.args[0], st)
+                    if nm == 'okeys':
+                        return Ty.S(td_).keys(d_), LIST(STR)
+                    k_, _ = s.ev(e.args[1], st)
+                    return (Ty.S(td_).has(d_)[k_], BOOL) if nm == 'ohas' else (Ty.S(td_).val(d_)[k_], td_.a[0])
+                if nm == 'is_dict':
+                    a_, _ = s.ev(e.args[0], st)
+                    return s.pv().is_pD(a_), BOOL
                 if nm == 'bound':
                     b_ = st.env.get('__b_' + e.args[0].id)
                     return (b_[0] if b_ else BoolVal(True)), BOOL
@@ -1069,6 +1139,9 @@ class VCGen:
 
     def resolve_method(s, ot, attr):
         cls = ot.a[0]
+        view = s.cur.get('callee_contracts', {}).get(f'{cls}.{attr}')
+        if view:
+            return view
         mod = s.cur.get('class_module', {}).get(cls) or s.cur['name'].split('.')[0]
         for m in (mod,) + tuple(s.modules):
             q = f'{m}.{cls}.{attr}'
@@ -1436,7 +1509,17 @@ class VCGen:
                     d['bind'](state, i)
             return dict(count=cnt, bind=bind, dyn=None)
         if isinstance(it, ast.Call) and isinstance(it.func, ast.Attribute) and it.func.attr == 'items':
-            raise Unsupported('dict.items() iteration')
+            d, td = s.ev(it.func.value, st)
+            if td.k != 'odict' or not isinstance(target, ast.Tuple) or len(target.elts) != 2:
+                raise Unsupported('items() of a non-ordered-dict')
+            Sd = Ty.S(td)
+            keys = Sd.keys(d)
+
+            def bind(state, i):
+                kk = L_arr(keys, LIST(STR))[i]
+                assign_target(target.elts[0], kk, STR, state)
+                assign_target(target.elts[1], Sd.val(d)[kk], td.a[0], state)
+            return dict(count=L_len(keys, LIST(STR)), bind=bind, dyn=None)
         v, t = s.ev(it, st)
         if t == PYVAL:
             P = s.pv()
@@ -1513,6 +1596,15 @@ class VCGen:
             v, t = s.coerce(v, t, ft)
             st.heap[tg.attr] = Store(st.heap[tg.attr], o, v)
             return
+        if isinstance(tg, ast.Subscript) and isinstance(tg.slice, ast.Constant) and isinstance(tg.slice.value, str):
+            b0, tb0 = s.ev(tg.value, st)
+            if tb0.k == 'ref':         # obj["key"] = v on a dict-like heap object with a fixed key set: a field store
+                fname = s.cur.get('dict_fields', {}).get(tb0.a[0], {}).get(tg.slice.value)
+                if fname is None:
+                    raise Unsupported(f'unknown key {tg.slice.value!r} of {tb0}')
+                ft = s.field_type(fname, tb0)
+                st.heap[fname] = Store(st.heap[fname], b0, s.coerce(v, t, ft, st)[0])
+                return
         if isinstance(tg, ast.Subscript):
             i, _ = s.ev(tg.slice, st)
             base = tg.value
@@ -1527,6 +1619,11 @@ class VCGen:
                     S = Ty.S(bt)
                     xv = s.coerce(v, t, bt.a[1])[0]
                     return S.mk(Store(S.has(bv), i, BoolVal(True)), Store(S.val(bv), i, xv))
+                if bt.k == 'odict':
+                    S = Ty.S(bt)
+                    xv = s.coerce(v, t, bt.a[0], st)[0]
+                    keys = S.keys(bv)
+                    return S.mk(If(S.has(bv)[i], keys, L_app(keys, LIST(STR), i)), Store(S.has(bv), i, BoolVal(True)), Store(S.val(bv), i, xv))
                 raise Unsupported(f'subscript store into {bt}')
             s.mutate_list(base, st, upd, line)
             return
@@ -1776,7 +1873,48 @@ class VCGen:
         return out
 
     def st_With(s, n, st):
-        raise Unsupported('with')
+        """with open(path, mode) as f: the file is a ghost -- __path, __mode, and for writing the list of written strings
+        (__written); for reading, f.read() returns the uninterpreted content of that path"""
+        if len(n.items) != 1:
+            raise Unsupported('with form')
+        it = n.items[0]
+        c = it.context_expr
+        if not (isinstance(c, ast.Call) and isinstance(c.func, ast.Name) and c.func.id == 'open' and isinstance(it.optional_vars, ast.Name) and len(c.args) == 2):
+            raise Unsupported('with form')
+        path, tp = s.ev(c.args[0], st)
+        mode, tm = s.ev(c.args[1], st)
+        if tp != STR or tm != STR:
+            raise Unsupported('open arguments')
+        st.env['__path'] = (path, STR)
+        st.env['__mode'] = (mode, STR)
+        st.env['__written'] = (empty(LIST(STR)), LIST(STR))
+        st.env[it.optional_vars.id] = (IntVal(1), FILE)
+        if '__b_' + it.optional_vars.id in st.env:
+            st.env['__b_' + it.optional_vars.id] = (BoolVal(True), BOOL)
+        return s.block(n.body, st)
+
+    def meth_write(s, e, o, ot, st):
+        if ot != FILE:
+            raise Unsupported('write on a non-file')
+        x, tx = s.ev(e.args[0], st)
+        if tx != STR:
+            raise Unsupported('write of a non-string')
+        w, tw = st.env['__written']
+        st.env['__written'] = (L_app(w, tw, x), tw)
+        return BoolVal(False), NONE
+
+    def meth_read(s, e, o, ot, st):
+        if ot != FILE:
+            raise Unsupported('read on a non-file')
+        if 'CONTENT' not in SPEC:
+            SPEC['CONTENT'] = dict(f=Function('CONTENT', Ty.StringSort(), Ty.StringSort()), args=[STR], ret=STR, unfold=None)
+        return SPEC['CONTENT']['f'](st.env['__path'][0]), STR
+
+    def bi_eval(s, e, st):
+        v, t = s.ev(e.args[0], st)
+        if 'EVAL' not in SPEC:
+            SPEC['EVAL'] = dict(f=Function('EVAL', Ty.StringSort(), sort(PYVAL)), args=[STR], ret=PYVAL, unfold=None)
+        return SPEC['EVAL']['f'](v), PYVAL
 
     # ---------------------------------------------------------------- loops
     def loop_spec(s, n):
@@ -1791,6 +1929,8 @@ class VCGen:
         for x in ast.walk(ast.Module(body=list(body), type_ignores=[])):
             if isinstance(x, ast.Name) and isinstance(x.ctx, ast.Store):
                 out.add(x.id)
+            if isinstance(x, ast.Call) and isinstance(x.func, ast.Attribute) and x.func.attr == 'write':
+                out.add('__written')
             if isinstance(x, ast.Call) and isinstance(x.func, ast.Attribute) and x.func.attr in ('append', 'pop', 'sort', 'remove', 'extend', 'insert', 'clear', 'reverse'):
                 b = x.func.value
                 while isinstance(b, (ast.Subscript, ast.Attribute)):
@@ -2117,7 +2257,16 @@ class VCGen:
                 cal.env[params[0][0]] = (recv[0], params[0][1])
             pi = 1
         pos = list(c.args)
-        kw = {x.arg: x.value for x in c.keywords}
+        kw = {x.arg: x.value for x in c.keywords if x.arg is not None}
+        splat = [x.value for x in c.keywords if x.arg is None]
+        splat_vals = {}
+        for sv_ in splat:               # f(**d) for a dict-like heap object with a fixed key set: one keyword per key
+            dv, dt = s.ev(sv_, st)
+            keys = s.cur.get('dict_fields', {}).get(dt.a[0]) if dt.k == 'ref' else None
+            if keys is None:
+                raise Unsupported('** of an unknown mapping')
+            for key, fname in keys.items():
+                splat_vals[key] = (st.heap[fname][dv], s.field_type(fname, dt))
         for (pn, pt) in params[pi:]:
             if pn in ghosts:
                 continue
@@ -2125,6 +2274,10 @@ class VCGen:
                 a = pos.pop(0)
             elif pn in kw:
                 a = kw.pop(pn)
+            elif pn in splat_vals:
+                v, t = splat_vals.pop(pn)
+                cal.env[pn] = s.coerce(v, t, pt, st)
+                continue
             elif pn in k.get('defaults', {}):
                 a = s.parse(k['defaults'][pn])
             else:
